@@ -61,8 +61,12 @@ def generate(tier, rng):
                           "scale": gen.pick_scale(rng, decimal_share=0.3)})
     for _ in range(120 if tier == "quick" else 3000):
         tiers = []
+        # names that contain one another (a tier is selected by its name, not by a part of it)
+        pool = rng.sample(["words", "word", "w", "ord", "phones", "phone"], 4) if rng.random() < 0.5 else None
         for k in range(rng.randint(2, 4)):
             t = gen.random_itier(rng, name="i%d" % k, tmax=60, maxn=4) if rng.random() < 0.6 else gen.random_ptier(rng, name="p%d" % k, tmax=60, maxn=4)
+            if pool:
+                t["name"] = pool[k]
             t["min"], t["max"] = 0, 60
             tiers.append(t)
         cases.append({"op": "align", "tiers": tiers, "args": {"ref": rng.choice(tiers)["name"], "d": rng.randint(1, 3)},
